@@ -91,6 +91,10 @@ type Op struct {
 	Kind string `json:"kind"`
 	Blob int    `json:"blob,omitempty"`
 	Ref  int    `json:"ref,omitempty"` // tag name "t<Ref>"
+	// Variant: the descriptor handed to Tag/Delete carries digest and size only
+	// (MediaType ""), as a caller that knows just the digest would build it.  The
+	// model does not distinguish it: the blob is the same.
+	Variant bool `json:"variant,omitempty"`
 }
 
 func (o Op) String() string {
